@@ -167,6 +167,10 @@ struct XPrint : Engine {
                 RV v; if (shape == 0) v = RV::string(big); else { v = RV::mk(RV::Obj); v.obj.emplace_back("k", RV::string(big)); v.obj.emplace_back(big.substr(0, (size_t)L / 2), RV::mk(RV::True)); }
                 emit(v);
             }
+            // wide shapes: many sibling containers (the text must parse back: nesting depth is 2, not the sibling count)
+            for (int shape = 0; shape < 4; shape++) { if (!pool_take()) continue; RV v = RV::mk(shape == 3 ? RV::Obj : RV::Arr); int n = CJSON_NESTING_LIMIT + 50;
+                for (int i = 0; i < n; i++) { RV e = shape == 0 ? RV::mk(RV::Arr) : shape == 1 ? RV::mk(RV::Obj) : RV::mk(RV::Arr); if (shape == 2) e.arr.push_back(RV::mk(RV::Obj)); if (shape == 3) v.obj.emplace_back("k", e); else v.arr.push_back(e); }
+                emit(v); }
             // deep nesting: indentation grows with depth
             for (int d : { 5, 20, 60, 130 }) for (int shape = 0; shape < 2; shape++) { if (!pool_take()) continue; RV v = RV::number(1); for (int i = 0; i < d; i++) { RV w = RV::mk(shape ? RV::Obj : RV::Arr); if (shape) w.obj.emplace_back("k", v); else w.arr.push_back(v); v = w; } emit(v); }
         } else if (stage == "special") {
